@@ -894,6 +894,28 @@ def atan2(y, x, match=True):
     return res
 
 
+def exp_(x):
+    """exponential of a series whose constant term is exactly zero (a quantity that vanishes with
+    the formal parameter): its power series; of an exact 0: 1. exp of a non-vanishing symbolic
+    value is not algebraic and is not modelled."""
+    x = J(x)
+    c0 = z3.simplify(x.c0)
+    if not (is_val(c0) and val(c0) == 0):
+        raise NotImplementedError('exp of a symbolic value with non-zero constant term is not algebraic')
+    u = x.nil()
+    if not u.co:
+        return J(1)
+    n = sum(C.maxdeg) if C.total is None else min(sum(C.maxdeg), C.total)
+    res, p, fact = J(1), J(1), 1
+    for k in range(1, n + 1):
+        p = p * u
+        fact *= k
+        if not p.co:
+            break
+        res = res + p * Fr(1, fact)
+    return res
+
+
 def arcsin(x, match=False):
     x = J(x)
     return atan2(x, (1 - x * x).sqrt(), match=match)
@@ -1221,6 +1243,26 @@ class SymNP:
 
     def allclose(self, a, b, rtol=1e-05, atol=1e-08, equal_nan=False):
         return bool(np.all(self.isclose(a, b, rtol=rtol, atol=atol, equal_nan=equal_nan)))
+
+    def gradient(self, f, *varargs, axis=None, edge_order=1):
+        f = self.asarray(f)
+        if isinstance(f, Sym) or f.dtype != object:
+            return np.gradient(f, *varargs, axis=axis, edge_order=edge_order)
+        if varargs or f.ndim != 1 or edge_order != 1 or len(f) < 2:
+            raise NotImplementedError('np.gradient on symbolic values: only 1-D, unit spacing, edge_order 1')
+        # numpy's definition for unit spacing: central differences inside, one-sided at the ends
+        out = np.empty(len(f), dtype=object)
+        out[0] = J(f[1]) - J(f[0])
+        out[-1] = J(f[-1]) - J(f[-2])
+        for k in range(1, len(f) - 1):
+            out[k] = (J(f[k + 1]) - J(f[k - 1])) * Fr(1, 2)
+        return out
+
+    def exp(self, a):
+        return self._u1(exp_, a)
+
+    def expm1(self, a):
+        return self._u1(lambda x: exp_(x) - 1, a)
 
     def full(self, shape, fill_value, dtype=None):
         if isinstance(fill_value, Sym) or (isinstance(fill_value, np.ndarray) and fill_value.dtype == object):
